@@ -93,8 +93,10 @@ fn run_synth(prop: &str, s: &Synth, rep: &mut Report, sample: bool) {
 		let limit = confirmed_later.iter().map(|f| f.health_ms).min().unwrap_or(500);
 		if checks::healthy(&h, limit) {
 			healthy_runs += 1;
-			for fd in &confirmed_later {
-				*hits.entry(fd.sig.clone()).or_default() += 1;
+			// one hit per signature and run, however many events of the run show it
+			let first: std::collections::BTreeSet<String> = confirmed_later.iter().map(|f| f.sig.clone()).collect();
+			for sg in first {
+				*hits.entry(sg).or_default() += 1;
 			}
 		}
 		let mut last = h.clone();
